@@ -533,13 +533,38 @@ func (l *Lexer) shiftEndTag() []byte {
 // shiftXML parses the content of a svg or math tag according to the XML 1.1 specifications, including the tag itself.
 // So far we have already parsed `<svg` or `<math`.
 func (l *Lexer) shiftXML(rawTag Hash) []byte {
-	inQuote := false
+	inTag := true // we are in the start tag of the svg or math element
+	quote := byte(0)
 	for {
 		c := l.r.Peek(0)
-		if c == '"' {
-			inQuote = !inQuote
+		if c == 0 {
+			if l.r.Err() == nil {
+				l.err = parse.NewErrorLexer(l.r, "unexpected NULL character")
+			}
+			return l.r.Shift()
+		} else if quote != 0 {
+			// attribute value
+			if c == quote {
+				quote = 0
+			}
 			l.r.Move(1)
-		} else if c == '<' && !inQuote && l.r.Peek(1) == '/' {
+		} else if inTag && (c == '"' || c == '\'') {
+			quote = c
+			l.r.Move(1)
+		} else if c == '>' {
+			inTag = false
+			l.r.Move(1)
+		} else if c == '<' && l.at('<', '!', '-', '-') {
+			l.r.Move(4)
+			for !l.at('-', '-', '>') && l.r.Peek(0) != 0 {
+				l.r.Move(1)
+			}
+		} else if c == '<' && l.at('<', '!', '[', 'C', 'D', 'A', 'T', 'A', '[') {
+			l.r.Move(9)
+			for !l.at(']', ']', '>') && l.r.Peek(0) != 0 {
+				l.r.Move(1)
+			}
+		} else if c == '<' && l.r.Peek(1) == '/' {
 			mark := l.r.Pos()
 			l.r.Move(2)
 			for {
@@ -551,12 +576,9 @@ func (l *Lexer) shiftXML(rawTag Hash) []byte {
 			if h := ToHash(parse.ToLower(parse.Copy(l.r.Lexeme()[mark+2:]))); h == rawTag { // copy so that ToLower doesn't change the case of the underlying slice
 				break
 			}
-		} else if c == 0 {
-			if l.r.Err() == nil {
-				l.err = parse.NewErrorLexer(l.r, "unexpected NULL character")
-			}
-			return l.r.Shift()
+			inTag = true
 		} else {
+			inTag = inTag || c == '<'
 			l.r.Move(1)
 		}
 	}
